@@ -476,7 +476,35 @@ def check_C14(tier, replay=None):
                   ["concretiser (XML escaping of the payload)", "independent lexer of the harness (harness/src/lexer.rs) and syn", "TLC"])
 
 
-CHECKS = {"C14": check_C14, "C17": check_C17, "C13": check_C13, "C12": check_C12, "C09": check_C09, "C10": check_C10, "C08": check_C08, "C11": check_C11, "C06": check_C06, "C15": check_C15, "C02": check_C02}
+# ------------------------------------------------------------------------- C19
+
+def check_C19(tier, replay=None):
+    R = Result("C19", tier)
+    z.build_harness()
+    c = cfg("MCSpec", {"NotForwarded": "{}"}, invariants=["TransparentWhenForwarding", "Emit"])
+    res, vocab, cases, _ = mc_run(R, "MC_C19", c, "MC_C19", workers=4)
+    # vacuity guard: with any one channel not forwarded the model must find a non-transparent value
+    for ch in ("ser", "check", "attrs"):
+        c2 = cfg("MCSpec", {"NotForwarded": '{"%s"}' % ch}, invariants=["TransparentBroken"])
+        r2 = z.tlc(os.path.join(z.SPEC, "mc", "MC_C19.tla"), c2.replace("TransparentBroken", "TransparentAlways"), workers=2, timeout=300, name="MC_C19_no_" + ch)
+        if r2["ok"]:
+            raise z.ToolError(f"vacuity: dropping channel {ch} does not break transparency in the model")
+    for i, cs in enumerate(cases):
+        cs["id"] = i + 1
+    R.cases, R.vocab = cases, vocab
+    log(f"MC_C19: {res['distinct']} states, {len(cases)} probe cases")
+    traces, crashed = z.run_harness(vocab, cases, "C19")
+    tcfg = cfg("TraceSpec", {"NotForwarded": "{}"}, post="Accepted")
+    viol, known, stale, drift = trace_run(R, "Trace_C19", tcfg, traces, "T_C19")
+    R.viol = viol
+    R.samples = cases[:2]
+    R.extra["exhaustive"] = True
+    return finish(R, "model_checking",
+                  "model: every value tree of a bounded family with wrappers at every position is transparent on the channels ser / attrs / check when the wrapper forwards them (and not transparent when any one is dropped); replay: probe types (text-only, attributes, nested with optional and repeated members, self-referential tree, restricted, flattened) x value shapes (text class, optional present/absent, 0..2 items, depth 0..2, attribute present/absent, violating value), each built bare and wrapped against the unmodified helper source; TLC requires every channel (serialised text at the root / as a field / flattened, deserialised Debug text, restriction result, Default, clone sharing) to agree",
+                  ["hand-written probe types (harness/src/multiref.rs)", "yaserde 0.12", "TLC"])
+
+
+CHECKS = {"C19": check_C19, "C14": check_C14, "C17": check_C17, "C13": check_C13, "C12": check_C12, "C09": check_C09, "C10": check_C10, "C08": check_C08, "C11": check_C11, "C06": check_C06, "C15": check_C15, "C02": check_C02}
 
 
 def main(argv):
